@@ -304,8 +304,8 @@ Definition vsub_typed (l r : value) : res value :=
 
 Definition vmul_typed (l r : value) : res value :=
   match l, r with
-  | VDur a, VInt b => if in_i32 b then mk_dur (a * b) else Err
-  | VInt a, VDur b => if in_i32 a then mk_dur (b * a) else Err
+  | VDur a, VInt b => mk_dur (a * b)            (* on the nanosecond count, any integer factor (fix 0992468) *)
+  | VInt a, VDur b => mk_dur (b * a)
   | VFloat a, VFloat b => Ok (from_float (fmul a b))
   | VInt a, VInt b => Ok (int_or_float (a * b) (fmul (f_of_Z a) (f_of_Z b)))
   | _, _ => binary_op fmul l r
@@ -324,7 +324,7 @@ Definition vmul (l r : value) : res value := vmul_typed (int_text l) (int_text r
 Definition vdiv_typed (l r : value) : res value :=
   match l, r with
   | VDur a, VInt b =>
-      if in_i32 b && negb (b =? 0) then Ok (VDur (Z.quot a b)) else Err
+      if negb (b =? 0) then Ok (VDur (Z.quot a b)) else Err
   | _, _ => binary_op fdiv l r
   end.
 
